@@ -470,6 +470,7 @@ func ruleTransferApp(w *World, r *Report, id string, app appDesc) {
 	k.recvRule(id, app)
 	k.refundRule(id, app)
 	k.traceRule(id+".trace", app)
+	k.pathArithRule(id+".path", app)
 	k.ackOnceRule(id + ".ackonce")
 	if id == "C04" {
 		k.callbackChainRule("C04.ack.source", "Acknowledgement", "OnAcknowledgementPacket", "GetSourceChain")
@@ -614,6 +615,10 @@ func ruleC06(w *World, r *Report) {
 		k.packetDataRule("C06.send", app)
 		k.namespaceRule("C06.delim", app)
 		k.traceRule("C06.trace", app)
+		// round trip: each hop away inserts one path element, each hop back removes it, all
+		// other elements are kept; the sender decides the direction against the destination
+		k.pathArithRule("C06.path", app)
+		k.appSendRule("C06.send", app)
 		// a failed receive (error acknowledgement, refund on the source) must not leave vouchers
 		// behind: everything that can fail precedes the first token operation (shared with C19)
 		k.recvRule("C06", app)
@@ -913,6 +918,7 @@ func ruleC19(w *World, r *Report) {
 	}
 	sort.Slice(fns, func(i, j int) bool { return fns[i].String() < fns[j].String() })
 	k.globalWriteRule("C19.nostate", fns)
+	k.keeperMemRule("C19.nostate.keeper", fns)
 	r.Info("C19.token-after-error-ack", "MUST-PASS", "apps", "-", "not armed: AppModule.OnRecvPacket does not run the keeper callback on a cached context, so a token-module failure between two mutations (e.g. IssueDenom ok, MintNFT fails) leaves the first mutation committed under an error acknowledgement; deciding whether such a failure is possible needs value reasoning about the token modules")
 	// a handler does not branch the store for a part of its work
 	k.ctxRule("C19.ctx")
